@@ -51,12 +51,17 @@ def get_job(ids):
     return _JOBS[ids]
 
 
+def no_xml_for(ids, subset):
+    """some jobs start from the images alone (no input PAGE XML: pages without a layout, as at the start of a pipeline)"""
+    return "lines" not in subset and (len(subset) + len(ids)) % 3 == 0
+
+
 def get_ref(ctx, ids, subset):
     key = (ids, subset)
     if key not in _REFS:
         job = get_job(ids)
         outs = F.out_dirs(job["root"], "ref-" + "-".join(subset), subset)
-        status, inj = F.run_main(F.argv_for(job, outs))
+        status, inj = F.run_main(F.argv_for(job, outs, no_xml=no_xml_for(ids, subset)))
         ctx.check(status == "ok", "uninterrupted_run_fails", lambda: "%s; stdout=%s" % (status, inj.stdout[-600:]))
         ctx.check("ERROR" not in inj.stdout, "uninterrupted_run_reports_errors", lambda: inj.stdout[-800:])
         # every requested output of every input page is there (the comparison with resumed runs would be vacuous otherwise)
@@ -113,6 +118,7 @@ def run_case(ctx, ids, subset, crashes):
     if info_level:
         job = dict(job, config=job["config_info"])
     foreign = _COUNTER[0] % 3 == 0                   # the output folders already hold the complete outputs of an earlier batch
+    no_xml = no_xml_for(ids, subset)
     in_cfg = _COUNTER[0] % 5 == 2                    # all paths in the configuration file instead of on the command line
     desc = lambda: "ids=%r outputs=%r crash positions=%r skipp-missing-xml=%r logging INFO=%r outputs of other pages present=%r (uninterrupted run makes %d writes: %r)" % (
         ids, subset, crashes, smx, info_level, foreign, W, ref_writes)
@@ -131,12 +137,14 @@ def run_case(ctx, ids, subset, crashes):
             ctx.event("logging_level_info")
         if in_cfg:
             ctx.event("paths_in_the_configuration_file")
+        if no_xml:
+            ctx.event("job_without_input_page_xml")
         inside = False
         first = True
         history = []
         for c in crashes:
             before = incomplete_pages(ids, subset, outs) if not first else list(ids)
-            status, inj = F.run_main(F.argv_for(job, outs, skip=not first, skip_missing_xml=smx, paths_in_config=in_cfg), F.Injector(crash_at=c))
+            status, inj = F.run_main(F.argv_for(job, outs, skip=not first, skip_missing_xml=smx, paths_in_config=in_cfg, no_xml=no_xml), F.Injector(crash_at=c))
             history.append((c, status, list(inj.writes)))
             ctx.check(status in ("ok", "crash"), "run_fails", lambda: "status %s; history %r; " % (status, history) + desc())
             if not first:
@@ -153,7 +161,7 @@ def run_case(ctx, ids, subset, crashes):
             first = False
         # final resume(s): the batch must complete
         before = incomplete_pages(ids, subset, outs) if not first else list(ids)
-        status, inj = F.run_main(F.argv_for(job, outs, skip=not first, skip_missing_xml=smx, paths_in_config=in_cfg))
+        status, inj = F.run_main(F.argv_for(job, outs, skip=not first, skip_missing_xml=smx, paths_in_config=in_cfg, no_xml=no_xml))
         history.append((None, status, list(inj.writes)))
         ctx.check(status == "ok", "resume_does_not_exit_cleanly", lambda: "status %s; history %r; stdout tail %r; " % (status, history, inj.stdout[-300:]) + desc())
         if not first:
@@ -161,7 +169,7 @@ def run_case(ctx, ids, subset, crashes):
         diff = F.diff_snapshots(ref_snap, own_snapshot(outs))
         ctx.check(not diff, "outputs_differ_after_resume", lambda: "%r; history %r; " % (diff, history) + desc())
         # one more resume: nothing left to do, exits cleanly, processes nothing
-        status, inj = F.run_main(F.argv_for(job, outs, skip=True, skip_missing_xml=smx, paths_in_config=in_cfg))
+        status, inj = F.run_main(F.argv_for(job, outs, skip=True, skip_missing_xml=smx, paths_in_config=in_cfg, no_xml=no_xml))
         ctx.check(status == "ok", "resume_with_nothing_to_do_fails", lambda: "status %s; " % status + desc())
         ctx.check(not inj.processed, "complete_page_processed_again", lambda: "a resume over a complete folder processed %r; " % (inj.processed,) + desc())
         ctx.check(not F.diff_snapshots(ref_snap, own_snapshot(outs)), "outputs_changed_by_idle_resume", desc)
